@@ -22,6 +22,7 @@ class H:
     outside: str = ''              # what lies outside the bound
     functions: List[str] = field(default_factory=list)     # real functions executed symbolically
     twin: bool = True
+    replay_fn: Optional[str] = None  # name of a module function call_expr -> {'ok':..,'exc':..} replacing native replay
 
     @property
     def claim(self) -> bool:
